@@ -6,6 +6,8 @@ Decides the inductive invariant "every derived cache agrees with the primary sta
 
 from __future__ import annotations
 
+import ast
+
 from ..components import CACHE_PARTS, DirtyCache
 from ..entries import mutators, refresh_functions, tracked_objects
 from ..index import AnalysisError, FuncInfo
@@ -115,6 +117,36 @@ def run(index, tier="quick", seed=0) -> Result:
                             f"through that handle leaves the cache stale")
                 else:
                     res.ok("COH-5", k)
+    # COH-6: copies of a shape inherit its lazily filled caches; state written on the copy must reset them before they are read
+    from ..components import CopyCache, EXTRA_CACHE_READS
+    from ..index import PropInfo
+    ncopy = 0
+    for cls in index.shape_classes():
+        if cls.name not in VERTEX_BASED:
+            continue
+        for name, m in sorted(cls.public_members().items()):
+            fns = []
+            if isinstance(m, PropInfo):
+                p_ = index.effective_prop(cls, name)
+                fns = [f for f in ((p_.getter, p_.setter) if p_ else ()) if f is not None]
+            elif isinstance(m, FuncInfo):
+                fns = [m]
+            for f in fns:
+                if "copy(" not in ast.unparse(f.node):
+                    continue
+                cc = CopyCache()
+                r_ = Interp(index, [cc]).run_entry(f, cls)
+                ncopy += 1
+                k_ = f"{cls.name}.{name}"
+                if cc.violations:
+                    evr, cache, attr, evw = cc.violations[0]
+                    res.bad("COH-6", f"{k_}:copy:{cache}<-{attr}", evr.where(), f"{k_} copies the shape, writes {attr} of the copy (`{evw.src()[:50]}`) and then "
+                            f"reads the copy's cached {cache}, which was filled from the geometry of the original and is never reset on the copy "
+                            f"(path {' -> '.join(evr.path)}): the result depends on which queries ran before")
+                elif EXTRA_CACHE_READS:
+                    res.ok("COH-6", k_)
+                else:
+                    res.ok("COH-6", k_, nontrivial=False)
     # MEMO-1: results memoised on the identity of a mutable shape go stale after any mutation
     for cls in index.shape_classes():
         for c in cls.mro:
